@@ -206,16 +206,25 @@ def normFs (s : String) : List String := normRuns ((s.splitOn " ").filter (· !=
 
 def sortStrs (l : List String) : List String := (l.toArray.qsort (· < ·)).toList
 
-/-- the oracle "index and files agree": for every field index, the multiset of indexed values is
-    the multiset of that field over all objects read through `All` -/
+/-- the oracle "index and files agree": every object read through `All` has, in every field
+    index, the entry (its value, its oid); answers `true` or `false h1,h2,…` -/
 def consistentOf (c : Coll) : Coll × String :=
   match c.schema with
   | (c, .ok l) =>
     match c.all with
     | (c, .ok os, _) =>
-      let ok := l.index.fields.all (fun fi =>
-        sortStrs (fi.idx.map (fun e => e.1.print)) == sortStrs (os.map (fun o => (o.field fi.pos).print)))
-      (c, toString ok)
+      let stale := os.filter (fun o =>
+        match l.index.oidOf o.uuid with
+        | none => true
+        | some oid => l.index.fields.any (fun fi =>
+            match o.field fi.pos with
+            | .v x => !(fi.idx.any (fun e => e.2 == oid && e.1 == x))
+            | .opaque _ => true))
+      let sizeOK := l.index.fields.all (fun fi => fi.idx.length == os.length)
+      if stale.isEmpty && sizeOK then (c, "true")
+      else
+        let hs := ((stale.map (·.uuid)).toArray.qsort (· < ·)).toList
+        (c, ("false " ++ ",".intercalate (hs.map toString)).trimAscii.toString)
     | (c, _, _) => (c, "false")
   | (c, .err e) => (c, "E:" ++ e.print)
   | (c, .panic) => (c, "PANIC")
